@@ -281,12 +281,14 @@ func (v *Visitor) Visit(s *df.AnalyzerState, source df.NodeWithTrace) {
 					s.ReportMissingOrNotConstructedSummary(callSite)
 					break
 				} else {
-					if s.IsReachableFunction(callSite.Callee()) {
+					if s.IsReachableFunction(callSite.Callee()) && s.IsReachableFunction(callSite.Graph().Parent) {
 						panic(fmt.Sprintf("unexpected missing callee summary for reachable function %s",
 							callSite.Callee()))
 					} else {
-						// Ignore the callee, it is not reachable.
-						// If it was reachable, there should be a summary. If a bug is encountered here, then the
+						// Ignore the callee: it is not reachable, or the call is located in a function that is not
+						// reachable (its call sites have not been linked to summaries; the visitor can get there
+						// through the creation site of a closure that escapes to reachable code).
+						// If both were reachable, there should be a summary. If a bug is encountered here, then the
 						// problem should be in the initial reachability computation logic, not here.
 						break
 					}
